@@ -269,13 +269,14 @@ def x86Store (c : Cfg) (base : Nat) (off : Int) (srcRt srcId : Nat) (t : Nat) : 
     else if !c.avx512 then fin (v c .movdqa) msz
     else fin (p .vmovdqa32) msz
 
-/-- a64 `EmitHelper::emit_arg_move` (with fix C06-13: integer moves and loads extend as x86 does – sign extension when both
-    types are signed, zero extension otherwise – and scalar float <-> double is `fcvt`) -/
-def a64ArgMove (dstRt dstId dt : Nat) (src : Opnd) (st : Nat) : Option Inst :=
+/-- a64 `EmitHelper::emit_arg_move`, the selection (independent of register ids and of the address; with fix C06-13: integer
+    moves and loads extend as x86 does – sign extension when both types are signed, zero extension otherwise – and scalar
+    float <-> double is `fcvt`); `none` = `kInvalidState` -/
+def a64Sel (dstRt dt : Nat) (src : SrcKind) (st : Nat) : Option MoveSel :=
   let dt := if dt = 0 then typeIdOfReg dstRt else dt
   let dsz := tySize dt
   let ssz := tySize st
-  let intPart : Option (Option Inst) :=
+  let intPart : Option (Option MoveSel) :=
     if isInt dt && isInt st then
       let x := dsz = 8
       let drt := if x then 6 else 5
@@ -283,18 +284,18 @@ def a64ArgMove (dstRt dstId dt : Nat) (src : Opnd) (st : Nat) : Option Inst :=
       let srcSigned := st % 2 = 0
       let signExt := if widen then (srcSigned && dt % 2 = 0) else srcSigned
       if src.isReg then
-        if !widen then some (some ⟨.mov, false, [.reg drt dstId, src.withRt drt]⟩)
+        if !widen then some (some ⟨.mov, false, drt, some drt, 0⟩)
         else
           let name : Option Mn :=
             if ssz = 1 then some (if signExt then .sxtb else .uxtb) else if ssz = 2 then some (if signExt then .sxth else .uxth)
             else if ssz = 4 then some (if signExt then .sxtw else .mov) else none
-          some (name.map fun n => ⟨n, false, [.reg (if signExt then drt else 5) dstId, src.withRt 5]⟩)
+          some (name.map fun n => ⟨n, false, if signExt then drt else 5, some 5, 0⟩)
       else if src.isMem then
         let name : Option Mn :=
           if ssz = 1 then some (if signExt then .ldrsb else .ldrb) else if ssz = 2 then some (if signExt then .ldrsh else .ldrh)
           else if ssz = 4 then some (if x && signExt then .ldrsw else .ldr) else if ssz = 8 then some .ldr else none
         let drt' := if ssz < 8 && !(signExt && (x || ssz < 4)) then 5 else drt
-        some (name.map fun n => ⟨n, false, [.reg drt' dstId, src]⟩)
+        some (name.map fun n => ⟨n, false, drt', none, 0⟩)
       else none
     else none
   match intPart with
@@ -306,14 +307,18 @@ def a64ArgMove (dstRt dstId dt : Nat) (src : Opnd) (st : Nat) : Option Inst :=
       if (dsc = tFloat32 && ssc = tFloat64) || (dsc = tFloat64 && ssc = tFloat32) then
         let toDouble := dsc = tFloat64
         if !src.isReg || ssz ≠ (if toDouble then 4 else 8) then none
-        else some ⟨.fcvt, false, [.reg (if toDouble then 10 else 9) dstId, src.withRt (if toDouble then 9 else 10)]⟩
+        else some ⟨.fcvt, false, if toDouble then 10 else 9, some (if toDouble then 9 else 10), 0⟩
       else
       let drt := if ssz = 2 then 8 else if ssz = 4 then 9 else if ssz = 8 then 10 else if ssz = 16 then 11 else 0
       if drt = 0 then none
-      else if src.isReg then some ⟨if ssz ≤ 4 then .fmov else .mov, false, [.reg drt dstId, src.withRt drt]⟩
-      else if src.isMem then some ⟨.ldr, false, [.reg drt dstId, src]⟩
+      else if src.isReg then some ⟨if ssz ≤ 4 then .fmov else .mov, false, drt, some drt, 0⟩
+      else if src.isMem then some ⟨.ldr, false, drt, none, 0⟩
       else none
     else none
+
+/-- a64 `EmitHelper::emit_arg_move` (memory operands carry no size on this target) -/
+def a64ArgMove (dstRt dstId dt : Nat) (src : Opnd) (st : Nat) : Option Inst :=
+  (a64Sel dstRt dt src.kind st).map fun m => m.apply dstId src
 
 /-- a64 `EmitHelper::emit_reg_move`, store form (operands: register, memory) -/
 def a64Store (base : Nat) (off : Int) (srcRt srcId : Nat) (t : Nat) : Option Inst :=
